@@ -87,7 +87,9 @@ impl Service<http::Request<Body>> for Capture {
         Box::pin(async move {
             let resp = fut.await?;
             let (parts, body) = resp.into_parts();
-            log.ev(json!({"e":"resp_head","status":parts.status.as_u16(),"list":headers_json(&parts.headers)}));
+            // eos: the body reports its end before it is polled (in-process: what the transport would ask before writing the HEADERS
+            // frame; over h2: END_STREAM was on the HEADERS frame)
+            log.ev(json!({"e":"resp_head","status":parts.status.as_u16(),"list":headers_json(&parts.headers),"eos":HttpBody::is_end_stream(&body)}));
             Ok(http::Response::from_parts(parts, Body::new(TapBody::new(body, log, "resp"))))
         })
     }
@@ -409,7 +411,7 @@ async fn run_raw(stim: &Value, log: &Rec) {
         Err(e) => log.ev(json!({"e":"raw_err","msg":e.to_string()})),
         Ok(resp) => {
             let (parts, body) = resp.into_parts();
-            log.ev(json!({"e":"resp_head","status":parts.status.as_u16(),"list":headers_json(&parts.headers)}));
+            log.ev(json!({"e":"resp_head","status":parts.status.as_u16(),"list":headers_json(&parts.headers),"eos":HttpBody::is_end_stream(&body)}));
             let mut tb = TapBody::new(body, log.clone(), "resp");
             let mut n = 0;
             loop {
